@@ -70,6 +70,7 @@ type c07Seg struct {
 	P []dagshape.Ref `json:"p,omitempty"`
 	N int            `json:"n"`
 	O int            `json:"o"`
+	W bool           `json:"w,omitempty"` // wide: the N transactions are siblings (all hang off P, same clock) instead of a chain
 }
 
 // c07Act is one schedule action.
@@ -78,7 +79,8 @@ type c07Seg struct {
 //	deliver I    deliver in-flight message I (mod len)           flush     deliver everything in flight (and what that causes), FIFO
 //	drop I       lose it                                         dup I     duplicate it
 //	stale I      re-inject a copy of the I-th message ever sent  expire N  all conversations of node N time out
-//	add N C      node N creates/admits its next C late transactions
+//	add N C      node N creates/admits its next C late transactions (C > 100: more than a gossip queue holds)
+//	sync         up to 6 fair rounds (tick all, deliver all, expire) or until all nodes hold the same set
 //	tamper I T C alter a TransactionList in flight: T=0 bad signature, 1 wrong payload, 2 wrong clock, 3 orphan, 4 no payload
 type c07Act struct {
 	K string `json:"k"`
@@ -101,14 +103,14 @@ type c07Case struct {
 	Sched       []c07Act `json:"sched"`
 }
 
-var c07Profiles = []string{"small", "small", "small", "small", "small", "identical", "behind", "behind", "bigdiff", "bigdiff", "bigdiff", "pages", "pages", "disjoint", "disjoint", "disjoint"}
+var c07Profiles = []string{"small", "small", "small", "small", "burst", "burst", "highpage", "identical", "behind", "behind", "bigdiff", "bigdiff", "bigdiff", "pages", "pages", "disjoint", "disjoint", "disjoint"}
 
 func c07Gen(t *rapid.T) c07Case {
 	thorough := os.Getenv("VERIF_TIER") == "thorough"
 	c := c07Case{Profile: rapid.SampledFrom(c07Profiles).Draw(t, "profile")}
 	c.Nodes = 2
 	switch c.Profile {
-	case "bigdiff", "pages":
+	case "bigdiff", "pages", "highpage":
 		if rapid.IntRange(0, 5).Draw(t, "three") == 0 {
 			c.Nodes = 3
 		}
@@ -139,6 +141,7 @@ func c07Gen(t *rapid.T) c07Case {
 		return len(c.Segs) - 1
 	}
 	pick := func(label string, v ...int) int { return rapid.SampledFrom(v).Draw(t, label) }
+	burstOwner, burstLen := -1, 0
 	one := func(label string) int { return 1 << rapid.IntRange(0, c.Nodes-1).Draw(t, label) }
 	back := func() int { return pick("back", 0, 0, 0, 1, 3) }
 
@@ -202,6 +205,41 @@ func c07Gen(t *rapid.T) c07Case {
 		if n := pick("olen", 0, 0, 3, 50); n > 0 {
 			seg(n, all&^a, dagshape.Ref{Seg: 0, Back: back()})
 		}
+	case "burst":
+		// everything shared (the nodes are in sync) except one private segment of > 100 transactions, which its owner creates
+		// in one go after connecting: more than the gossip queue (100 refs) takes between two ticks
+		seg(pick("len0", 1, 5, 60, 300), all)
+		if rapid.Bool().Draw(t, "shared2") {
+			seg(pick("slen", 1, 10, 40), all, dagshape.Ref{Seg: 0, Back: back()})
+		}
+		hi := 260
+		if thorough {
+			hi = 450
+		}
+		burstOwner = rapid.IntRange(0, c.Nodes-1).Draw(t, "a")
+		burstLen = rapid.IntRange(101, hi).Draw(t, "burst")
+		seg(burstLen, 1<<burstOwner, dagshape.Ref{Seg: len(c.Segs) - 1, Back: back()})
+		c.Segs[len(c.Segs)-1].W = rapid.IntRange(0, 3).Draw(t, "wide") == 0
+	case "highpage":
+		// same (or lower) height but a page >= 1 that differs by more than one IBLT decodes, all lower pages equal:
+		// a shared trunk crossing the first page boundary + > 650 private siblings right behind it
+		seg(pick("trunk", 513, 520, 560), all)
+		a := rapid.IntRange(0, c.Nodes-1).Draw(t, "a")
+		b := (a + 1) % c.Nodes
+		switch rapid.IntRange(0, 2).Draw(t, "variant") {
+		case 0: // both sides, same height
+			seg(rapid.IntRange(680, 760).Draw(t, "wa"), 1<<a, dagshape.Ref{Seg: 0})
+			c.Segs[len(c.Segs)-1].W = true
+			seg(rapid.IntRange(680, 760).Draw(t, "wb"), 1<<b, dagshape.Ref{Seg: 0})
+			c.Segs[len(c.Segs)-1].W = true
+		case 1: // one side only, the other node ends on the same page
+			seg(rapid.IntRange(740, 820).Draw(t, "wa"), 1<<a, dagshape.Ref{Seg: 0})
+			c.Segs[len(c.Segs)-1].W = true
+		case 2: // the node with the siblings is one page LOWER than its peer
+			seg(rapid.IntRange(740, 820).Draw(t, "wa"), 1<<a, dagshape.Ref{Seg: 0})
+			c.Segs[len(c.Segs)-1].W = true
+			seg(rapid.IntRange(510, 600).Draw(t, "cb"), 1<<b, dagshape.Ref{Seg: 0})
+		}
 	case "disjoint":
 		seg(pick("len0", 1, 10, 100), all)
 		for i := 0; i < c.Nodes; i++ {
@@ -212,7 +250,13 @@ func c07Gen(t *rapid.T) c07Case {
 		}
 	}
 	for i := 0; i < c.Nodes; i++ {
-		c.Late = append(c.Late, pick("late", 0, 0, 0, 1, 3, 20, 120))
+		c.Late = append(c.Late, pick("late", 0, 0, 0, 1, 3, 20, 120, 150, 300))
+		if burstOwner >= 0 {
+			c.Late[i] = 0
+			if i == burstOwner {
+				c.Late[i] = burstLen
+			}
+		}
 	}
 	c.MsgKB = pick("msgkb", 512, 512, 128, 64, 64)
 	c.ExpireEvery = rapid.IntRange(1, 3).Draw(t, "expire_every")
@@ -222,7 +266,7 @@ func c07Gen(t *rapid.T) c07Case {
 		c.Sched = append(c.Sched, c07Act{K: "tickall"})
 	}
 	kinds := []string{"tick", "tick", "tickall", "advance", "advance", "advance", "advance", "advance", "deliver", "deliver", "deliver", "flush",
-		"drop", "drop", "dup", "dup", "expire", "stale", "add", "tamper", "tamper"}
+		"drop", "drop", "dup", "dup", "expire", "stale", "add", "tamper", "tamper", "sync"}
 	for i := 0; i < n; i++ {
 		a := c07Act{K: rapid.SampledFrom(kinds).Draw(t, "k")}
 		switch a.K {
@@ -240,7 +284,7 @@ func c07Gen(t *rapid.T) c07Case {
 			a.N = rapid.IntRange(0, c.Nodes-1).Draw(t, "n")
 		case "add":
 			a.N = rapid.IntRange(0, c.Nodes-1).Draw(t, "n")
-			a.C = pick("c", 1, 1, 2, 10, 60)
+			a.C = pick("c", 1, 1, 2, 10, 60, 150, 400)
 		case "tamper":
 			a.I = rapid.IntRange(0, 1<<12).Draw(t, "i")
 			a.T = rapid.IntRange(0, 4).Draw(t, "t")
@@ -337,6 +381,7 @@ type c07Fix struct {
 	msgMax   int
 	step     int
 	stepWhat string
+	phase    string
 
 	dropped, duplicated, reordered, staleInj, tampered, oversize, handlerErrs, delivered int
 	badPayloadRefs                                                                       map[hash.SHA256Hash]bool
@@ -382,6 +427,22 @@ func (f *c07Fix) build() {
 		shape.Segs = append(shape.Segs, dagshape.Seg{Prev: s.P, Len: s.N})
 	}
 	nodes := shape.Expand()
+	// wide segments: all members are siblings hanging off the segment's parents; clocks recomputed in one pass
+	firstOf := map[int]int{}
+	for j := range nodes {
+		sg := nodes[j].Seg
+		if _, ok := firstOf[sg]; !ok {
+			firstOf[sg] = j
+		} else if sg > 0 && c.Segs[sg].W {
+			nodes[j].Prevs = nodes[firstOf[sg]].Prevs
+		}
+		nodes[j].Clock = 0
+		for _, p := range nodes[j].Prevs {
+			if nodes[p].Clock+1 > nodes[j].Clock {
+				nodes[j].Clock = nodes[p].Clock + 1
+			}
+		}
+	}
 	all := 1<<c.Nodes - 1
 	eff := make([]int, len(c.Segs))
 	seen := make([]bool, len(c.Segs))
@@ -679,7 +740,23 @@ func (f *c07Fix) expire(n *c07Node) {
 	cm.evict()
 }
 
+// sameSets: all nodes hold the same set right now (not necessarily the union: late transactions may still be uncreated).
+func (f *c07Fix) sameSets() bool {
+	for _, n := range f.nodes[1:] {
+		if len(n.have) != len(f.nodes[0].have) || !n.fold.Equals(f.nodes[0].fold) {
+			return false
+		}
+	}
+	return true
+}
+
 func (f *c07Fix) addLate(n *c07Node, k int) {
+	if k > 100 && len(n.late) > 100 {
+		f.x.Class("burst: >100 transactions created between two ticks")
+		if f.sameSets() {
+			f.x.Class("burst: >100 transactions created between two ticks while all nodes were in sync")
+		}
+	}
 	for ; k > 0 && len(n.late) > 0; k-- {
 		j := n.late[0]
 		n.late = n.late[1:]
@@ -867,6 +944,12 @@ func (f *c07Fix) act(a c07Act) {
 		f.expire(f.nodes[a.N%c.Nodes])
 	case "add":
 		f.addLate(f.nodes[a.N%c.Nodes], a.C)
+	case "sync":
+		f.phase = "sync action"
+		for r := 1; r <= 6 && !f.sameSets(); r++ {
+			f.round(r, 400)
+		}
+		f.stepWhat = a.K
 	case "tamper":
 		f.tamper(a)
 	}
@@ -938,7 +1021,7 @@ func (f *c07Fix) converged() bool {
 
 // round is one round of the fair suffix. Returns false if the delivery bound was hit.
 func (f *c07Fix) round(r int, bound int) bool {
-	f.stepWhat = fmt.Sprintf("suffix round %d", r)
+	f.stepWhat = fmt.Sprintf("%s: fair round %d", f.phase, r)
 	f.tickAll()
 	ok := f.flush(bound)
 	if r%f.c.ExpireEvery == 0 {
@@ -1048,6 +1131,45 @@ func c07Run(x *h.Ctx, c c07Case) {
 		}
 	}
 	x.Class("dag:max-missing:" + c07Bucket(maxMissing))
+	// the page walk-down case: the lowest page on which two connected nodes differ is >= 1 and differs by more than one IBLT decodes
+	for i := 0; i < c.Nodes; i++ {
+		for j := 0; j < c.Nodes; j++ {
+			if !f.linked(i, j) {
+				continue
+			}
+			diff := map[uint32]int{}
+			var top [2]uint32
+			for k := range f.txs {
+				o := f.txs[k].own
+				if o == 0 {
+					continue
+				}
+				pg := f.txs[k].tx.Clock() / dag.PageSize
+				hasI, hasJ := o&(1<<i) != 0, o&(1<<j) != 0
+				if hasI != hasJ {
+					diff[pg]++
+				}
+				if hasI && pg > top[0] {
+					top[0] = pg
+				}
+				if hasJ && pg > top[1] {
+					top[1] = pg
+				}
+			}
+			lowest, found := uint32(0), false
+			for pg := range diff {
+				if !found || pg < lowest {
+					lowest, found = pg, true
+				}
+			}
+			if found && lowest >= 1 && diff[lowest] > 650 {
+				x.Class("dag:lowest differing page >= 1 and differs by > 650")
+				if top[1] <= top[0] {
+					x.Class("dag:lowest differing page >= 1 differs by > 650, peer not on a higher page")
+				}
+			}
+		}
+	}
 	if !differ {
 		x.Class("dag:identical")
 	}
@@ -1106,6 +1228,7 @@ func c07Run(x *h.Ctx, c c07Case) {
 	}
 
 	// fair suffix: what is still local-only gets created, then rounds
+	f.phase = "suffix"
 	for _, n := range f.nodes {
 		f.stepWhat = "late add at suffix start"
 		f.addLate(n, len(n.late))
@@ -1206,7 +1329,7 @@ func c07Run(x *h.Ctx, c c07Case) {
 	h.Count(c07ID, x.Unit, "messages_total", f.seq)
 
 	// stability: further rounds change nothing, and the final read-back (sets, payloads, digests) agrees
-	f.stepWhat = "after convergence"
+	f.phase = "after convergence"
 	for r := 1; r <= 2; r++ {
 		f.round(4*R+r, roundDeliveries)
 	}
